@@ -9,13 +9,14 @@ namespace KdVerif
 inductive PyErr
   | indexError | keyError | valueError | attributeError | typeError
   | unicodeError | structError | streamError | eof | hang
+  | unmodelled     -- the input left the modelled domain (never a Python exception)
   deriving DecidableEq, Repr, Inhabited
 
 def PyErr.name : PyErr → String
   | .indexError => "IndexError" | .keyError => "KeyError" | .valueError => "ValueError"
   | .attributeError => "AttributeError" | .typeError => "TypeError"
   | .unicodeError => "UnicodeError" | .structError => "StructError"
-  | .streamError => "StreamError" | .eof => "EOF" | .hang => "Hang"
+  | .streamError => "StreamError" | .eof => "EOF" | .hang => "Hang" | .unmodelled => "Unmodelled"
 
 abbrev Bytes := List Nat
 
